@@ -21,7 +21,7 @@ EXPLANATION = (
     "ordinary formatters - the necessary condition for an in-range statement nested in an out-of-range one to get the "
     "indentation whole-file formatting gives it. Not decided: the rest of 'in-range statements equal the whole-file "
     "result' (layout; tables and hanging expressions add indent levels the range-only visitor does not model)."
-    "Later rounds: (R-ONCE) no formatter is applied to a node that came out of a formatter (such nodes carry no source positions, so every range test on them answers NotInRange).")
+    "Later rounds: (R-ONCE) no formatter is applied to a node that came out of a formatter (such nodes carry no source positions, so every range test on them answers NotInRange). Rounds 17-19: (R-SKIP(h)) an out-of-range statement found in a sequence is handed to the formatter that dispatches to the range-only visitor; (R-RANGE(toggle)).")
 ASSUMPTIONS = ["to_owned/clone of a full_moon node reproduces its tokens and trivia verbatim",
                "rustc MIR and Instance::try_resolve are trusted"]
 
